@@ -344,6 +344,29 @@ def r3(chk, prog):
               r.loc())
 
 
+def r3_global_forwarding(chk, prog):
+    """the global attribute interface of Logging (used by ScopedAttribute to end a scope) hands every parameter on
+    to the same-named operation of the attribute container: removeAttribute( name) removes THAT name (not 'the
+    attribute added last'), addAttribute( name, value) adds exactly that pair"""
+    n = 0
+    for f in prog.functions:
+        if f.classq != 'celma::log::Logging' or f.short not in ('addAttribute', 'removeAttribute', 'getAttribute') \
+                or f.body is None:
+            continue
+        calls = [c for c in f.calls() if field_name(object_of(c)) == 'mAttributes']
+        n += 1
+        ok = len(calls) == 1 and (calls[0].get('callee') or '').split('::')[-1] == f.short
+        detail = 'no single call of mAttributes.%s()' % f.short
+        if ok:
+            args = [a for a in call_args(calls[0]) if not a.get('defarg')]
+            ok = len(args) == len(f.params) and all(mentions_var(a, p_['name']) for a, p_ in zip(args, f.params)) and \
+                not f.cfg.must_pass_through(lambda nn: nn in calls)
+            detail = 'the container operation is called with %d of %d parameters' % (len(args), len(f.params))
+        chk.check(ok, 'R3', f.name, 'Logging::%s() forwards all its parameters to the attribute container' % f.short,
+                  f.loc(), detail)
+    chk.require(n >= 2, 'forwarding attribute operations of Logging: %d' % n)
+
+
 def r3_add_balance(chk, prog):
     """add and remove are balanced: every call of addAttribute() adds exactly one entry (the scoped removal takes
     exactly one away), and it does nothing else to the container"""
@@ -399,7 +422,7 @@ def r4(chk, prog):
 def run(chk):
     units = units_matching('library/log/formatting/', 'library/log/detail/log_attributes_container.cpp',
                            'library/log/detail/log_scoped_attribute.cpp', 'library/log/log_attributes.cpp',
-                           'library/log/detail/log_msg.cpp')
+                           'library/log/detail/log_msg.cpp', 'library/log/logging.cpp')
     prog = load_program(units)
     chk.units = units
     chk.explanation = (
@@ -418,4 +441,5 @@ def run(chk):
     r2(chk, prog)
     r3(chk, prog)
     r3_add_balance(chk, prog)
+    r3_global_forwarding(chk, prog)
     r4(chk, prog)
